@@ -88,7 +88,7 @@ def keypress_threads(cs):
 class RunawayOutput(Exception):
     pass
 
-def run_main(argv, trigger=None, stdin=None, close_stdin_at_end=True, keep_input=False, max_guesses=3000000):
+def run_main(argv, trigger=None, stdin=None, close_stdin_at_end=True, keep_input=False, max_guesses=None):
     """Run the real main() once.  trigger(ev, ctx) is called in the generation thread at every POP / GUESS event and may
     call ctx.deliver(...)."""
     pcfg_guesser, cs, pg, pq = _modules()
@@ -125,8 +125,8 @@ def run_main(argv, trigger=None, stdin=None, close_stdin_at_end=True, keep_input
     def rec_print(self, g):
         ctx.pcfg = self
         res.guesses.append(g)
-        if len(res.guesses) > max_guesses:
-            raise RunawayOutput(f'more than {max_guesses} guesses: the run does not stop')
+        if len(res.guesses) > (max_guesses if max_guesses is not None else 20000000):
+            raise RunawayOutput(f'more than {max_guesses if max_guesses is not None else 20000000} guesses: the run does not stop')
         if trigger:
             trigger(('GUESS', len(res.guesses), g, len(res.pops) - 1,
                      len(res.guesses) - (res.pops[-1]['first_guess'] if res.pops else 0)), ctx)
@@ -158,8 +158,8 @@ def run_main(argv, trigger=None, stdin=None, close_stdin_at_end=True, keep_input
                 res.exc = e
             except BaseException as e:
                 from .evidence import CaseTimeout
-                if isinstance(e, (CaseTimeout, KeyboardInterrupt)):
-                    raise
+                if isinstance(e, (CaseTimeout, KeyboardInterrupt)) or (isinstance(e, RunawayOutput) and max_guesses is None):
+                    raise            # watchdogs of the harness: inconclusive, never a verdict (an explicit max_guesses makes it a verdict)
                 res.exc = e
     finally:
         pg.PcfgGrammar.print_guess = orig_print
